@@ -44,4 +44,46 @@ Section G.
         let S := fold_left (sw_grad_step a_k da_k vals dvals) (seq 0 (length a_k)) (repeat (nzero Nm) n_sel) in
         map (fun p => k_sw_grad_norm Nm (k_sw_grad_add Nm (fst p) (snd p)) A) (combine G0 S)
     end.
+
+  (* ------------------------------------------------------------------ *)
+  (* The whole gradient pipeline of MultiDatasetTCLLHRatio.evaluate for ONE fit parameter id,
+     from the per-dataset inputs the code has at that point: N, n_selected, the row a_jk of the
+     weights table, its gradient row (None: fitparam_id is no key of a_jk_grads), the table of
+     (source, event, R_ik) and of (source, event, dR_ik/dp).  This is the composition whose
+     derivative property is P_LlhPipeGrad.pipeline_p_derive; it is executed on IEEE doubles
+     (ocaml/c02) against the real classes. *)
+  Definition pipe_ds : Type :=
+    (T * nat * list T * option (list T) * list (nat * nat * T) * list (nat * nat * T))%type.
+  Definition pd_N (d : pipe_ds) : T := fst (fst (fst (fst (fst d)))).
+  Definition pd_nsel (d : pipe_ds) : nat := snd (fst (fst (fst (fst d)))).
+  Definition pd_a (d : pipe_ds) : list T := snd (fst (fst (fst d))).
+  Definition pd_da (d : pipe_ds) : option (list T) := snd (fst (fst d)).
+  Definition pd_vals (d : pipe_ds) : list (nat * nat * T) := snd (fst d).
+  Definition pd_dvals (d : pipe_ds) : list (nat * nat * T) := snd d.
+
+  Definition pd_Ri (d : pipe_ds) : list T := sw_ratio Nm (pd_a d) (pd_nsel d) (pd_vals d).
+  Definition pd_dRi (d : pipe_ds) : list T :=
+    sw_grad (pd_a d) (pd_da d) (pd_nsel d) (pd_vals d) (Some (pd_dvals d)) (pd_Ri d).
+  Definition pd_da0 (d : pipe_ds) : list T :=
+    match pd_da d with Some l => l | None => map (fun _ => nzero Nm) (pd_a d) end.
+
+  (* (value, grads[ns], grads[p], calculate_ns_grad2) *)
+  Definition pipeline_eval (opa ns : T) (DS : list pipe_ds) : T * T * T * T :=
+    let a := map pd_a DS in
+    let f := f_j Nm a in
+    let df := f_j_grad Nm a (map pd_da0 DS) in
+    (multi_value Nm opa ns f (map (fun d => (pd_N d, pd_Ri d)) DS),
+     multi_grad_ns Nm opa ns f (map (fun d => (pd_N d, pd_Ri d)) DS),
+     multi_grad_p Nm opa ns f df (map (fun d => (pd_N d, pd_Ri d, pd_dRi d)) DS),
+     multi_ns_grad2 Nm opa ns f
+       (map (fun d => (pd_N d, pd_Ri d, nsub Nm (pd_N d) (ofZ Nm (Z.of_nat (pd_nsel d))))) DS)).
+
+  (* SigOverBkgPDFRatio: ratio and gradient of one table row in the four dependency cases
+     (sig_dep, bkg_dep); the gradient mask is the separately computed `m` of get_gradient *)
+  Definition sob_eval (zero_bkg s ds b db : T) (sig_dep bkg_dep : bool) : T * T :=
+    (sob_ratio Nm zero_bkg s b,
+     if negb sig_dep && negb bkg_dep then nzero Nm
+     else if sig_dep && negb bkg_dep then sob_grad_sig Nm ds b
+     else if sig_dep && bkg_dep then sob_grad_both Nm s ds b db
+     else sob_grad_bkg Nm s b db).
 End G.
